@@ -128,3 +128,73 @@ Proof.
   destruct (mt_wrap_cases (x - y)) as [[Hw Hle] | [Hw Hle]]; rewrite Hw;
     destruct Ha as [Ha | Ha]; rewrite Ha in *; destruct Hk as [Hk | [Hk | Hk]]; try rewrite Hk; nra.
 Qed.
+
+(* ...and the bound is ATTAINED by a shift in {-1,0,1}: the coded value is the minimum over integer images,
+   not merely a lower bound of it *)
+Lemma mt_wrap_sq_attained : forall x y, 0 <= x -> x < 1 -> 0 <= y -> y < 1 ->
+  exists k : Z, (-1 <= k <= 1)%Z /\
+    mt_wrap (x - y) * mt_wrap (x - y) == (x - y + inject_Z k) * (x - y + inject_Z k).
+Proof.
+  intros x y Hx0 Hx1 Hy0 Hy1. destruct (mt_abs_cases (x - y)) as [Hn Ha].
+  destruct (mt_wrap_cases (x - y)) as [[Hw Hle] | [Hw Hle]]; destruct Ha as [Ha | Ha].
+  - exists 0%Z. split; [lia |]. rewrite Hw, Ha. change (inject_Z 0) with 0. ring.
+  - exists 0%Z. split; [lia |]. rewrite Hw, Ha. change (inject_Z 0) with 0. ring.
+  - exists (-1)%Z. split; [lia |]. rewrite Hw, Ha. change (inject_Z (-1)) with (-1). ring.
+  - exists 1%Z. split; [lia |]. rewrite Hw, Ha. change (inject_Z 1) with 1. ring.
+Qed.
+
+(* each wrapped coordinate difference of two points of [0,1) lies in [0, 1/2] *)
+Lemma mt_wrap_le_half : forall x y, 0 <= x -> x < 1 -> 0 <= y -> y < 1 -> mt_wrap (x - y) <= 1 # 2.
+Proof.
+  intros x y Hx0 Hx1 Hy0 Hy1. destruct (mt_abs_cases (x - y)) as [Hn Ha].
+  destruct (mt_wrap_cases (x - y)) as [[Hw Hle] | [Hw Hle]]; rewrite Hw; lra.
+Qed.
+
+(* two dimensions: the coded periodic distance of two points of the unit cell is the minimum of the plain
+   distance over all integer translates of the second point (lower bound for every shift + attained) *)
+Definition mt_shift (b : mt_pt) (k1 k2 : Z) : mt_pt := (fst b - inject_Z k1, snd b - inject_Z k2).
+
+Lemma mt_periodic_le_image : forall a b (k1 k2 : Z), mt_in_unit a -> mt_in_unit b ->
+  mt_periodic_sq a b <= mt_euclid_sq a (mt_shift b k1 k2).
+Proof.
+  intros a b k1 k2 (Ha1 & Ha2 & Ha3 & Ha4) (Hb1 & Hb2 & Hb3 & Hb4).
+  unfold mt_periodic_sq, mt_euclid_sq, mt_shift, mt_sq. cbn [fst snd].
+  pose proof (mt_wrap_sq_min_image (fst a) (fst b) k1 Ha1 Ha2 Hb1 Hb2) as H1.
+  pose proof (mt_wrap_sq_min_image (snd a) (snd b) k2 Ha3 Ha4 Hb3 Hb4) as H2.
+  setoid_replace (fst a - (fst b - inject_Z k1)) with (fst a - fst b + inject_Z k1) by ring.
+  setoid_replace (snd a - (snd b - inject_Z k2)) with (snd a - snd b + inject_Z k2) by ring.
+  lra.
+Qed.
+
+Lemma mt_periodic_image_attained : forall a b, mt_in_unit a -> mt_in_unit b ->
+  exists k1 k2 : Z, (-1 <= k1 <= 1)%Z /\ (-1 <= k2 <= 1)%Z /\
+    mt_periodic_sq a b == mt_euclid_sq a (mt_shift b k1 k2).
+Proof.
+  intros a b (Ha1 & Ha2 & Ha3 & Ha4) (Hb1 & Hb2 & Hb3 & Hb4).
+  destruct (mt_wrap_sq_attained (fst a) (fst b) Ha1 Ha2 Hb1 Hb2) as (k1 & Hk1 & E1).
+  destruct (mt_wrap_sq_attained (snd a) (snd b) Ha3 Ha4 Hb3 Hb4) as (k2 & Hk2 & E2).
+  exists k1, k2. split; [exact Hk1 | split; [exact Hk2 |]].
+  unfold mt_periodic_sq, mt_euclid_sq, mt_shift, mt_sq. cbn [fst snd].
+  setoid_replace (fst a - (fst b - inject_Z k1)) with (fst a - fst b + inject_Z k1) by ring.
+  setoid_replace (snd a - (snd b - inject_Z k2)) with (snd a - snd b + inject_Z k2) by ring.
+  rewrite E1, E2. reflexivity.
+Qed.
+
+(* no two points of the unit torus are further apart than half the diagonal: d^2 <= 1/2 *)
+Lemma mt_periodic_le_half : forall a b, mt_in_unit a -> mt_in_unit b -> mt_periodic_sq a b <= 1 # 2.
+Proof.
+  intros a b (Ha1 & Ha2 & Ha3 & Ha4) (Hb1 & Hb2 & Hb3 & Hb4). unfold mt_periodic_sq, mt_sq.
+  pose proof (mt_wrap_le_half (fst a) (fst b) Ha1 Ha2 Hb1 Hb2).
+  pose proof (mt_wrap_le_half (snd a) (snd b) Ha3 Ha4 Hb3 Hb4).
+  pose proof (mt_wrap_nonneg_unit (fst a) (fst b) Ha1 Ha2 Hb1 Hb2).
+  pose proof (mt_wrap_nonneg_unit (snd a) (snd b) Ha3 Ha4 Hb3 Hb4).
+  nra.
+Qed.
+
+(* non-vacuity: the bound 1/2 is met by (0,0) and (1/2,1/2), and a shift is really needed for (0,0), (9/10, 0) *)
+Example mt_periodic_half_witness : mt_periodic_sq (0, 0) (1 # 2, 1 # 2) == 1 # 2.
+Proof. vm_compute. reflexivity. Qed.
+Example mt_periodic_shift_witness :
+  mt_periodic_sq (0, 0) (9 # 10, 0) == mt_euclid_sq (0, 0) (mt_shift (9 # 10, 0) 1 0)
+  /\ mt_periodic_sq (0, 0) (9 # 10, 0) < mt_euclid_sq (0, 0) (9 # 10, 0).
+Proof. split; vm_compute; reflexivity. Qed.
